@@ -60,6 +60,21 @@ fn spent(a: usize, b: usize) -> std::ops::RangeInclusive<usize> {
     r
 }
 
+/// A Hex RETURNED by an operation (tail, concat, an indexed write, a parse) is a Hex like any other: it equals the
+/// canonical value of its bytes in both directions, equals its own clone, and prints / measures as its bytes do.  Returns the
+/// bytes as the observation, marked "derived_inconsistent" when the value does not behave like its byte string.
+fn derived(x: &Hex) -> Value {
+    let b = x.bytes().to_vec();
+    let canon = Hex::from_slice(&b);
+    let heap = Hex::Vector(b.clone());
+    let okay = *x == canon && canon == *x && *x == heap && heap == *x && *x == x.clone() && x.len() == b.len() && x.print() == canon.print() && x.to_vec() == b;
+    if okay {
+        bytes_json(&b)
+    } else {
+        json!({"k": "bytes", "v": b, "derived_inconsistent": true})
+    }
+}
+
 fn run_op(op: &str, h: &Hex, a: usize, b: usize, b_raw: i64, other: &[u8]) -> Value {
     match op {
         "len" => {
@@ -127,7 +142,10 @@ fn run_op(op: &str, h: &Hex, a: usize, b: usize, b_raw: i64, other: &[u8]) -> Va
             Ok(x) => json!({"k": "byte", "v": x}),
             Err(_) => json!({"k": "panic"}),
         },
-        "tail" => slice_res(guarded(|| h.tail(a).bytes().to_vec())),
+        "tail" => match guarded(|| h.tail(a)) {
+            Ok(t) => derived(&t),
+            Err(_) => json!({"k": "panic"}),
+        },
         "from" => slice_res(guarded(|| h[a..].to_vec())),
         "to" => slice_res(guarded(|| h[..a].to_vec())),
         "to_incl" => slice_res(guarded(|| h[..=a].to_vec())),
@@ -139,7 +157,7 @@ fn run_op(op: &str, h: &Hex, a: usize, b: usize, b_raw: i64, other: &[u8]) -> Va
             match guarded(|| {
                 h2[a] = b_raw as u8;
             }) {
-                Ok(()) => bytes_json(h2.bytes()),
+                Ok(()) => derived(&h2),
                 Err(_) => json!({"k": "panic"}),
             }
         }
@@ -227,7 +245,7 @@ pub fn run(paths: &[PathBuf], obs_out: &PathBuf) -> Value {
                         let r = guarded(|| ha.concat(&hb));
                         let changed = format!("{ha:?}{:?}", raw_of(&ha)) != sa || format!("{hb:?}{:?}", raw_of(&hb)) != sb;
                         let observed = match &r {
-                            Ok(x) => bytes_json(x.bytes()),
+                            Ok(x) => derived(x),
                             Err(_) => json!({"k": "panic"}),
                         };
                         if observed != *exp || changed {
